@@ -5,8 +5,8 @@ from nodegen import *
 ID = "C20"
 DRIVER = "node"
 MODEL_FILES = ["Model/Base.v", "Model/Parse.v", "Model/Node.v"]
-THEOREMS = []
-STRENGTH = {}
+THEOREMS = ["C20_one_message", "C20_http_aligned", "C20_http_length", "C20_http_released", "C20_example"]
+STRENGTH = {t: "proof-unbounded" for t in THEOREMS}
 RULE = ("HTTP bodies of 1-6 commands drawn from {auth ok/bad, use-db ok/bad, get, get-safe, set, set-safe ok/stale, remove, "
         "increment ok/non-numeric, keys, create-db allowed/refused, commands refused for missing database / missing permission / "
         "secure key}, with and without trailing ';' and blank statements, run through the real process_commands; the expected "
